@@ -350,7 +350,18 @@ def _table_xml(t):
 
 
 def to_xml(m):
-    p = ['<?xml version="1.0" encoding="UTF-8"?>', '<definitions namespace="https://verif/%s" name="%s" id="_defs" xmlns="https://www.omg.org/spec/DMN/20191111/MODEL/">' % (m["name"], m["name"])]
+    # the NAME of the model is, in turn, its own, that of one of its decisions, of an input data element, of a knowledge model
+    # (nothing in DMN keeps these apart; the names of the elements are what evaluation goes by)
+    defs_name = m["name"]
+    digits = "".join(ch for ch in m["name"] if ch.isdigit())
+    k = int(digits) % 4 if digits else 0
+    if k == 1 and m["decisions"]:
+        defs_name = m["decisions"][-1]["name"]
+    elif k == 2 and m["inputs"]:
+        defs_name = m["inputs"][0]["name"]
+    elif k == 3 and m["bkms"]:
+        defs_name = m["bkms"][0]["name"]
+    p = ['<?xml version="1.0" encoding="UTF-8"?>', '<definitions namespace="https://verif/%s" name="%s" id="_defs" xmlns="https://www.omg.org/spec/DMN/20191111/MODEL/">' % (m["name"], defs_name)]
     for i in m["inputs"]:
         p.append('<inputData name="%s" id="_%s"><variable name="%s" typeRef="%s"/></inputData>' % (i["name"], i["name"], i["name"], i["type"]))
     for b in m["bkms"]:
